@@ -52,11 +52,46 @@ pub(crate) fn crypto_secretbox_open_detached_inplace(
     computed_mac.update(data);
     let computed_mac = computed_mac.finalize_to_array();
 
+    // authenticate first: on failure the buffer must still hold the ciphertext
+    if mac.ct_eq(&computed_mac).unwrap_u8() != 1 {
+        return Err(dryoc_error!("decryption error (authentication failure)"));
+    }
+
     cipher.apply_keystream(data);
 
-    if mac.ct_eq(&computed_mac).unwrap_u8() == 1 {
-        Ok(())
-    } else {
-        Err(dryoc_error!("decryption error (authentication failure)"))
+    Ok(())
+}
+
+pub(crate) fn crypto_secretbox_open_detached_copy(
+    message: &mut [u8],
+    mac: &Mac,
+    ciphertext: &[u8],
+    nonce: &Nonce,
+    key: &Key,
+) -> Result<(), Error> {
+    let mut cipher = XSalsa20::new(
+        GenericArray::from_slice(key),
+        GenericArray::from_slice(nonce),
+    );
+
+    let mut mac_key = crate::poly1305::Key::new();
+    cipher.apply_keystream(&mut mac_key);
+
+    let mut computed_mac = Poly1305::new(&mac_key);
+    mac_key.zeroize();
+
+    computed_mac.update(ciphertext);
+    let computed_mac = computed_mac.finalize_to_array();
+
+    // authenticate first: nothing is written to `message` unless the
+    // ciphertext is genuine
+    if mac.ct_eq(&computed_mac).unwrap_u8() != 1 {
+        return Err(dryoc_error!("decryption error (authentication failure)"));
     }
+
+    let message = &mut message[..ciphertext.len()];
+    message.copy_from_slice(ciphertext);
+    cipher.apply_keystream(message);
+
+    Ok(())
 }
